@@ -200,7 +200,8 @@ func (m *ReconcilePod) podCreate(ctx context.Context, pod *corev1.Pod) (reconcil
 				err = m.client.Status().Update(ctx, prePodENICopy)
 				return reconcile.Result{RequeueAfter: 5 * time.Second}, err
 			}
-			return reconcile.Result{RequeueAfter: 5 * time.Second}, m.client.Delete(ctx, prePodENI)
+			// delete this very object, not whatever bears the name by now
+			return reconcile.Result{RequeueAfter: 5 * time.Second}, m.client.Delete(ctx, prePodENI, client.Preconditions{UID: &prePodENI.UID})
 		case v1beta1.ENIPhaseBinding, v1beta1.ENIPhaseDetaching:
 			return reconcile.Result{RequeueAfter: time.Second}, nil
 		}
